@@ -69,7 +69,7 @@ fn field(label: &'static str, val: String) -> Option<String> {
 }
 
 /// Choose a response document for step `si`; returns (doc, daystart).
-fn choose_doc(ids: &[String], si: usize, offer_first: bool) -> (Vec<AppDoc>, Daystart) {
+fn choose_doc(ids: &[String], si: usize, offer_first: bool, cohortless: bool) -> (Vec<AppDoc>, Daystart) {
     let menu = named_menu(ids);
     let named = menu[choose("named", menu.len())].clone();
     let mut doc = vec![];
@@ -79,14 +79,22 @@ fn choose_doc(ids: &[String], si: usize, offer_first: bool) -> (Vec<AppDoc>, Day
             if offer_first && *id == ids[0] {
                 docgen::Uc::OkManifest("3.3.3.3".into())
             } else {
-                docgen::Uc::NoUpdate
+                // the decision for the app does not matter for its cohort / day data
+                match choose("app_status", 4) {
+                    0 => docgen::Uc::NoUpdate,
+                    1 => docgen::Uc::Error("error-unknownApplication".into()),
+                    2 => docgen::Uc::Restricted,
+                    _ => docgen::Uc::NoElement,
+                }
             },
         );
-        a.cohort = (
-            field("cohort", format!("c-{id}-s{si}")),
-            field("cohorthint", format!("h-{id}-s{si}")),
-            field("cohortname", format!("n-{id}-s{si}")),
-        );
+        if !cohortless {
+            a.cohort = (
+                field("cohort", format!("c-{id}-s{si}")),
+                field("cohorthint", format!("h-{id}-s{si}")),
+                field("cohortname", format!("n-{id}-s{si}")),
+            );
+        }
         doc.push(a);
     }
     // an install needs the offered app to be named
@@ -133,6 +141,8 @@ fn view_fields(a: &AppView) -> Fields {
 fn run_one(ctx: &RunCtx, max_len: usize) -> RunOut {
     let n_apps = 1 + choose("n_apps", 3);
     let cup = choose("cup", 2) == 1;
+    // a server that never assigns cohorts: no response of the history carries any cohort field
+    let cohortless = choose("server_without_cohorts", 2) == 1;
     let ids: Vec<String> = ["app-A", "app-B", "app-C"][..n_apps].iter().map(|s| s.to_string()).collect();
     let plain_apps: Vec<omaha_client::common::App> = ids.iter().enumerate().map(|(i, id)| app(id, [1, 0, i as u32, 0])).collect();
     let mut setup = Setup::new(Mode::Start);
@@ -170,7 +180,7 @@ fn run_one(ctx: &RunCtx, max_len: usize) -> RunOut {
         let mut desc = format!("{kind:?}");
         match kind {
             Kind::Check | Kind::CheckInstallWait => {
-                let (doc, ds) = choose_doc(&ids, si, kind == Kind::CheckInstallWait);
+                let (doc, ds) = choose_doc(&ids, si, kind == Kind::CheckInstallWait, cohortless);
                 desc = format!("{kind:?} {:?} {ds:?}", doc.iter().map(|a| (&a.id, &a.cohort)).collect::<Vec<_>>());
                 any_change |= apply(&mut table, &doc, &ds);
                 {
@@ -178,6 +188,8 @@ fn run_one(ctx: &RunCtx, max_len: usize) -> RunOut {
                     k.uc = if kind == Kind::Check { Uc::NoUpdate } else { Uc::Update };
                     k.doc = Some((doc, ds));
                     k.reboot_needed = true;
+                    // attempts failing in transit before the answered one (no retry while a poll interval is in force: none is ever set here)
+                    k.uc_fail_first = choose("failed_attempts_first", 3);
                 }
                 h.check();
             }
@@ -207,7 +219,7 @@ fn run_one(ctx: &RunCtx, max_len: usize) -> RunOut {
                 h.check();
             }
             Kind::PingOk => {
-                let (doc, ds) = choose_doc(&ids, si, false);
+                let (doc, ds) = choose_doc(&ids, si, false, cohortless);
                 desc = format!("{kind:?} {:?} {ds:?}", doc.iter().map(|a| (&a.id, &a.cohort)).collect::<Vec<_>>());
                 any_change |= apply(&mut table, &doc, &ds);
                 h.knobs().ping_doc = Some((doc, ds));
@@ -381,8 +393,8 @@ fn parts(tier: Tier) -> Vec<PartDef> {
     let mk = |name: &str, len: usize, dev: usize| {
         PartDef::new(
             name,
-            Cfg::new(&format!("C09/{name}")).dev(dev).free(&["step", "n_apps", "cup"]),
-            json!({"max_history_length": len, "apps": "1..3", "step_kinds": 9, "named_app_menus": 6, "cohort_field_states": 3, "daystart_states": 3, "preset_subsets": 16,
+            Cfg::new(&format!("C09/{name}")).dev(dev).free(&["step", "n_apps", "cup", "server_without_cohorts"]),
+            json!({"max_history_length": len, "apps": "1..3", "step_kinds": 9, "named_app_menus": 6, "cohort_field_states": 3, "server_without_cohorts": [false, true], "daystart_states": 3, "preset_subsets": 16,
                    "exploration": format!("step kinds, app-set size and CUP exhaustive; at most {dev} non-default field/menu choices per history")}),
             move |ctx| run_one(ctx, len),
         )
